@@ -156,7 +156,9 @@ def compose(kind):
         fr = E.cls(F.QUAL[kind])(ServerDecoder())
         sender = E.cls(F.QUAL[kind])(ServerDecoder())
         frames, val = [], 0x1234
-        while len(frames) < 6:           # binary framing: values whose frames contain no delimiter byte (C03-F1 covers the others)
+        per_read = E.choice('frames_per_read', [1, 2, 3]) if kind != 'rtu' else 1      # RTU drops what follows the first frame of a read (C06-F3)
+        nfr = 5 * per_read + 1
+        while len(frames) < nfr:           # binary framing: values whose frames contain no delimiter byte (C03-F1 covers the others)
             fb = sender.buildPacket(WriteSingleRegisterRequest(len(frames) + 1, val, unit=1))
             val += 1
             if kind == 'binary' and (b'{' in fb[1:-1] or b'}' in fb[1:-1]):
@@ -166,7 +168,7 @@ def compose(kind):
         from pymodbus.register_write_message import WriteMultipleRegistersRequest
         wm = sender.buildPacket(WriteMultipleRegistersRequest(1, [1, 2, 3], unit=1))     # a request whose length depends on a byte count further in
         bad = bytearray(frames[0]); bad[-3 if kind != 'rtu' else -1] ^= 0x01
-        alphabet = {'random': bytes(E.int('g%d' % i, 0, 256) for i in range(E.int('glen', 0, 12))), 'delims': b':{}\r\n{:', 'truncated': frames[5][:E.int('cut', 1, len(frames[5]))],
+        alphabet = {'random': bytes(E.int('g%d' % i, 0, 256) for i in range(E.int('glen', 0, 12))), 'delims': b':{}\r\n{:', 'truncated': frames[-1][:E.int('cut', 1, len(frames[-1]))],
                     'badcheck': bytes(bad), 'foreign': foreign, 'none': b'', 'truncated-before-byte-count': wm[:E.int('cut16', 2, 7)]}
         kind_g = E.choice('garbage', sorted(alphabet))
         garbage = alphabet[kind_g]
@@ -175,7 +177,7 @@ def compose(kind):
         if E.bool('a_frame_was_served_before'):
             # a receiver that has already served a request is in its steady state (for RTU: empty header), not in its constructor's state
             try:
-                fr.processIncomingPacket(frames[5], got.append, [1])
+                fr.processIncomingPacket(frames[-1], got.append, [1])
             except Exception:
                 fr.resetFrame()
         try:
@@ -188,13 +190,11 @@ def compose(kind):
         backlog = 0
         for k in range(5):
             try:
-                fr.processIncomingPacket(frames[k], got.append, [1])
+                fr.processIncomingPacket(b''.join(frames[k * per_read:(k + 1) * per_read]), got.append, [1])
             except Exception:
                 fr.resetFrame()
             backlog = max(backlog, len(fr._buffer))
-            if delivered_from is None and any(getattr(m, 'address', None) == k + 1 for m in got):
-                delivered_from = k
-        ok_after = all(any(getattr(m, 'address', None) == k + 1 for m in got) for k in range(2, 5))
+        ok_after = all(any(getattr(m, 'address', None) == k + 1 for m in got) for k in range(2 * per_read, 5 * per_read))
         fk = {'finding': 'C11-F1', 'region': kind == 'ascii' and kind_g in ('badcheck', 'delims', 'truncated', 'random', 'truncated-before-byte-count')}
         E.prove('compose:every-frame-after-the-first-two-is-delivered', ok_after, **fk)
         E.prove('compose:backlog-below-two-maximum-frames', backlog <= 2 * 520)
